@@ -196,6 +196,32 @@ CHECKS = {
         design_ref="DESIGN.md section 4, C11",
         note=TB_B + " Time is a real number (no float rounding); client.timeout is injected as an attribute; brokerclient's datetime conversion is a pass-through.",
     ),
+    "C07": dict(
+        category="model_checking",
+        technique="dynamic symbolic execution (symrun/z3) of the real KafkaClient stack (client, broker clients, protocols, real codec) over an in-memory cluster: symbolic layouts, payload orders, broker behaviours, answer orders and shuffle permutations",
+        text="Bounded symbolic model checking of routing on the real KafkaClient over SimNet/SimCluster (brokers parse with the reference parser "
+             "and answer with the reference encoder). Cluster layout (leader of each partition among up to 3 brokers or none, canonical up to "
+             "renaming), the payload subset and order, per-broker behaviour (answer, refuse connection, drop on request, silent until timeout), "
+             "the order of answers and random.shuffle's permutation are symbolic finite-domain choices explored exhaustively for produce "
+             "(acks 1 and 0), fetch and list-offsets; the coordinator job checks group commits/fetches reach the coordinator; the unaware job "
+             "checks connected-first, every broker, then every bootstrap host before KafkaUnavailableError. Also cross-checks the outcome alphabet "
+             "assumed by the producer/consumer harnesses.",
+        design_ref="DESIGN.md section 4, C07",
+        note=TB_B + " Routing keys are hashed by the real code, so all variables are finite-domain; no numeric symbolic data.",
+    ),
+    "C08": dict(
+        category="model_checking",
+        technique="dynamic symbolic execution (symrun/z3) of the real KafkaClient metadata code: one inductive merge step from reachable pre-caches under a symbolic response, and fault-injection scripts (leader move, restart on new port, removal) on the real client stack",
+        text="Bounded symbolic model checking of the metadata cache. S-step: three reachable pre-caches (produced by the real merge code), then one "
+             "symbolic metadata response (covered topics, errors, partition sets, leaders incl. none, broker set shrinking, re-addressing, full or "
+             "partial): the view of covered topics must equal the response, other topics stay, broker addresses and live clients are updated, "
+             "clients of brokers missing from a full refresh are closed exactly once and nothing is closed on a partial one. S-script: produce "
+             "and fetch calls (single payload or two topics on two brokers, either order) while the cluster performs symbolic faults; a failed "
+             "call must leave no stale route for the affected partition, and a later call must succeed at the new leader within four attempts, "
+             "after which the cached view equals the cluster.",
+        design_ref="DESIGN.md section 4, C08",
+        note=TB_B + " Finite-domain choices only; bounded fault counts (unbounded liveness is outside the claim).",
+    ),
 }
 
 NOT_YET = "check not built yet in this session; see DESIGN.md section 4 for the planned solver-based harness"
